@@ -361,6 +361,16 @@ type c04Obs struct {
 	Arrivals []c04Arrival `json:"arrivals"`
 	NodeRel  bool         `json:"node_released,omitempty"` // pk: the request to the peer itself was answered before the call returned
 	Fail     string       `json:"fail,omitempty"`
+	Fixups   []c04Fixup   `json:"fixups,omitempty"` // corrective PUT_VALUEs (used by the C06 value-search run)
+}
+
+// c04Fixup: a PUT_VALUE the client handed to the network during or after a value search.
+type c04Fixup struct {
+	Net   string `json:"net"`
+	Peer  int    `json:"peer"`  // responder index, -1: not a responder
+	Value uint64 `json:"value"` // the record's value
+	KeyOK bool   `json:"key_ok"`
+	Live  bool   `json:"live"` // the request's context was not yet done when it reached the network
 }
 
 // ---- keys for GetPublicKey ------------------------------------------------------------------------
@@ -729,6 +739,7 @@ func (r *c04Run) run(t *testing.T) {
 			}
 		}
 		c := pend[pick]
+		r.noteFixup(c)
 		if c.req.GetType() == pb.Message_GET_VALUE {
 			delivered := c.ctx.Err() == nil
 			if i, ok := r.idx[c.p]; ok {
@@ -739,6 +750,21 @@ func (r *c04Run) run(t *testing.T) {
 			}
 		}
 		r.gate.release(c)
+	}
+	// corrective puts are sent in the background when the search is over: let them reach the network
+	for i := 0; i < 50; i++ {
+		synctest.Wait()
+		n := 0
+		for _, c := range r.gate.take() {
+			if c.req.GetType() == pb.Message_PUT_VALUE {
+				r.noteFixup(c)
+				r.gate.release(c)
+				n++
+			}
+		}
+		if n == 0 {
+			break
+		}
 	}
 	// let everything still in flight finish: fail the parked requests, let the
 	// timeouts fire
@@ -763,6 +789,23 @@ func (r *c04Run) run(t *testing.T) {
 		r.obs.Fail = "the operation did not return"
 	}
 	time.Sleep(30 * time.Second) // outstanding per-request timeouts
+}
+
+func (r *c04Run) noteFixup(c *c04Call) {
+	if c.req.GetType() != pb.Message_PUT_VALUE {
+		return
+	}
+	i, ok := r.idx[c.p]
+	if !ok {
+		i = -1
+	}
+	rec := c.req.GetRecord()
+	var vn uint64
+	if r.spec.Op != "pk" { // public keys are not numbered (the value-search run of C06 has no pk cases)
+		vn = c04ValN(rec.GetValue())
+	}
+	r.obs.Fixups = append(r.obs.Fixups, c04Fixup{Net: c.net, Peer: i, Value: vn,
+		KeyOK: string(rec.GetKey()) == r.key && string(c.req.GetKey()) == r.key, Live: c.ctx.Err() == nil})
 }
 
 // ---- generation -----------------------------------------------------------------------------------------
